@@ -196,7 +196,7 @@ def _fault_values(rng: random.Random, kind: str, width: int, img: bytes, off: in
 def _cue_faults(rng: random.Random, text: str) -> str:
     lines = text.split("\n")
     for _ in range(rng.randint(1, 3)):
-        k = weighted(rng, [("drop", 3), ("dup", 2), ("huge", 3), ("nofile", 1), ("garbage", 2), ("mode", 2), ("binary", 1), ("many", 1), ("blank", 4), ("longfile", 2), ("longtitle", 3)])
+        k = weighted(rng, [("drop", 3), ("dup", 2), ("huge", 3), ("nofile", 1), ("garbage", 2), ("mode", 2), ("binary", 1), ("many", 1), ("blank", 4), ("longfile", 2), ("longtitle", 3), ("dotdot", 2)])
         i = rng.randrange(len(lines)) if lines else 0
         if k == "drop" and lines:
             del lines[i]
@@ -238,6 +238,10 @@ def _cue_faults(rng: random.Random, text: str) -> str:
                 lines.insert(rng.choice(tr) + 1, title)
             else:
                 lines.insert(i, title)
+        elif k == "dotdot":
+            # FILE names with parent-directory components, back slashes or an absolute path
+            nm = rng.choice(["../d.bin", "../../d.bin", "a/../../x.bin", "..", "../", "./../d.bin", "..\\d.bin", "/d.bin", "a/../d.bin", "a/./b/../../d.bin"])
+            lines = [('FILE "%s" BINARY' % nm) if l.strip().upper().startswith("FILE") else l for l in lines]
         elif k == "binary":
             lines.insert(i, "\x00\x01\x02")
         elif k == "many":
